@@ -338,6 +338,9 @@ inductive Stmt
   | block (b : Block)
   /-- a reference whose resolution is observed -/
   | probe (id : Nat) (k : PKind) (p : Path)
+  /-- a parameter of the enclosing function (only at the head of a function
+      body): declared in the function scope *before* the body's imports -/
+  | param (x : Name) (tag : Nat)
 inductive Block
   | mk (imports : List Path) (stmts : List Stmt)
 end
@@ -415,7 +418,25 @@ def checkStmt (s : Nat) : Stmt → St → Res St
   | .probe id k p, st =>
     -- collect mode: a reference that does not resolve is recorded, not fatal
     .ok { st with probes := st.probes ++ [(id, probe st.g s k p)] }
+  | .param _ _, st => .ok st   -- declared by `checkItems` before the body is checked
 end
+
+/-- the parameters of a function: the leading `param` statements of its body -/
+def leadingParams : List Stmt → List (Name × Nat)
+  | .param x tag :: rest => (x, tag) :: leadingParams rest
+  | _ => []
+
+def paramsOf : Block → List (Name × Nat)
+  | .mk _ stmts => leadingParams stmts
+
+/-- `for (v, t) in &params { self.insert_var(scope, v, t)?; }` -/
+def declareParams (s : Nat) : List (Name × Nat) → Graph → Res Graph
+  | [], g => .ok g
+  | (x, tag) :: rest, g =>
+    match g.insertDecl ⟨s, x⟩ (.localv tag) none with
+    | .ok g' => declareParams s rest g'
+    | .err e => .err e
+    | .panic p => .panic p
 
 /-- `declare_modules` for one module (scope creation, `insert_module`, one
     declaration per item). `mods` = scopes of the modules declared so far. -/
@@ -495,10 +516,14 @@ def checkItems (s : Nat) : List Item → St → Res St
   | [], st => .ok st
   | .fn n _ body :: rest, st =>
     let (g', fs) := st.g.wrap s (.function n)
-    match checkBlock fs body { st with g := g' } with
-    | .ok st' => checkItems s rest st'
+    match declareParams fs (paramsOf body) g' with
     | .err e => .err e
     | .panic x => .panic x
+    | .ok g'' =>
+      match checkBlock fs body { st with g := g'' } with
+      | .ok st' => checkItems s rest st'
+      | .err e => .err e
+      | .panic x => .panic x
   | .const n _ :: rest, st =>
     let (g', _) := st.g.wrap s (.function n)
     checkItems s rest { st with g := g' }
